@@ -108,6 +108,7 @@ struct Interp
          return m;
       }
       if ((k == "routebare")&&(n >= 2)) return GetMessageFromPool((uint32) BARE_BASE + (uint32)((c ? c->idx : 0)*100000) + (uint32)(ToU(A(1)) % 100000));   // no field at all: default route or broadcast
+      if (k == "jettisontrees") {MessageRef m = GetMessageFromPool(PR_COMMAND_JETTISONDATATREES); for (size_t i=1; i<n; i++) (void) m()->AddString(PR_NAME_TREE_REQUEST_ID, Unesc(A(i)).c_str()); return m;}   /* cancels queued PR_RESULT_DATATREES results only (with ids: those; without: the untagged ones) */
       if (k == "jettison") {MessageRef m = GetMessageFromPool(PR_COMMAND_JETTISONRESULTS); for (size_t i=1; i<n; i++) (void) m()->AddString(PR_NAME_KEYS, Unesc(A(i)).c_str()); return m;}   // cancels queued PR_RESULT_DATAITEMS results only
       if (k == "routedefault")
       {
